@@ -28,42 +28,6 @@ type tok struct {
 	pos lexer.Position
 }
 
-// checkLossless checks C04's invariants on a successful lex.
-func checkLossless(in, filename string, r lexdrive.Run, noElided bool, skipsText bool) string {
-	prevEnd := 0
-	var sb strings.Builder
-	all := append(append([]lexer.Token{}, r.Toks...), *r.EOF)
-	for i, t := range all {
-		off := t.Pos.Offset
-		if off < prevEnd || off > len(in) {
-			return fmt.Sprintf("token %d %#v: offset %d overlaps previous token end %d or is out of range", i, t, off, prevEnd)
-		}
-		if !t.EOF() {
-			if off+len(t.Value) > len(in) || in[off:off+len(t.Value)] != t.Value {
-				return fmt.Sprintf("token %d %#v: value is not the input text at its offset", i, t)
-			}
-			if i > 0 && off == all[i-1].Pos.Offset {
-				return fmt.Sprintf("token %d %#v: offset not strictly increasing", i, t)
-			}
-			prevEnd = off + len(t.Value)
-			sb.WriteString(t.Value)
-		} else if off != len(in) {
-			return fmt.Sprintf("EOF at offset %d, expected %d", off, len(in))
-		}
-		line, col := lexdrive.PosAt(in, off)
-		if t.Pos.Line != line || t.Pos.Column != col {
-			return fmt.Sprintf("token %d %#v: line:col %d:%d, expected %d:%d for offset %d", i, t, t.Pos.Line, t.Pos.Column, line, col, off)
-		}
-		if t.Pos.Filename != filename {
-			return fmt.Sprintf("token %d %#v: filename %q, expected %q", i, t, t.Pos.Filename, filename)
-		}
-	}
-	if noElided && !skipsText && sb.String() != in {
-		return fmt.Sprintf("concatenated token values %q != input", sb.String())
-	}
-	return ""
-}
-
 type explorer struct {
 	prop string
 	w    *hx.Worker
@@ -186,7 +150,7 @@ func (e *explorer) runDef(fam string, def m.Def, inputs []string) {
 				w.Count("inputs_not_lexed_successfully", 1)
 				continue
 			}
-			if d := checkLossless(in, "f.txt", r, noElided, false); d != "" {
+			if d := lexdrive.CheckLossless(in, "f.txt", r, noElided, false); d != "" {
 				w.Violate(hx.Violation{Key: key(fam, def, in), Class: "position-or-text", Detail: map[string]any{"what": d}})
 			}
 			w.DistinctS(fmt.Sprint(r.Toks))
@@ -373,7 +337,7 @@ func textScannerJob(w *hx.Worker, quick bool) {
 			w.Count("inputs_not_lexed_successfully", 1)
 			continue
 		}
-		if d := checkLossless(in, "f.txt", r, false, true); d != "" {
+		if d := lexdrive.CheckLossless(in, "f.txt", r, false, true); d != "" {
 			w.Violate(hx.Violation{Key: fmt.Sprintf("text/scanner :: in=%q", in), Class: "position-or-text", Detail: map[string]any{"what": d}})
 		}
 		w.DistinctS(fmt.Sprint(r.Toks))
